@@ -154,16 +154,16 @@ macro_rules! arith {
         }
     };
 }
-//@h {"id":"C19.K.arith.coor4d","props":["C19"],"tier":"quick","kind":"bounded","bound":"2 x 2 probe vectors with pairwise distinct elements (symbolic-float equivalence of two IEEE mul/div circuits did not finish in 600 s; the operators are macro-generated straight-line code without data-dependent control flow)","timeout":600,"text":"Coor4D + - * / are element-wise and bit-equal to the scalar f64 operation, all f64 bits"}
+//@h {"id":"C19.K.arith.coor4d","props":["C19"],"tier":"quick","kind":"bounded","bound":"2 x 2 probe vectors with pairwise distinct elements (symbolic-float equivalence of two IEEE mul/div circuits did not finish in 600 s; the operators are macro-generated straight-line code without data-dependent control flow)","timeout":1800,"text":"Coor4D + - * / are element-wise and bit-equal to the scalar f64 operation, all f64 bits"}
 arith!(c19_arith_coor4d, Coor4D, 4, f64, [0, 1, 2, 3]);
-//@h {"id":"C19.K.arith.coor3d","props":["C19"],"tier":"quick","kind":"bounded","bound":"2 x 2 probe vectors with pairwise distinct elements (symbolic-float equivalence of two IEEE mul/div circuits did not finish in 600 s; the operators are macro-generated straight-line code without data-dependent control flow)","timeout":600,"text":"Coor3D operators element-wise"}
+//@h {"id":"C19.K.arith.coor3d","props":["C19"],"tier":"quick","kind":"bounded","bound":"2 x 2 probe vectors with pairwise distinct elements (symbolic-float equivalence of two IEEE mul/div circuits did not finish in 600 s; the operators are macro-generated straight-line code without data-dependent control flow)","timeout":1800,"text":"Coor3D operators element-wise"}
 arith!(c19_arith_coor3d, Coor3D, 3, f64, [0, 1, 2]);
-//@h {"id":"C19.K.arith.coor2d","props":["C19"],"tier":"quick","kind":"bounded","bound":"2 x 2 probe vectors with pairwise distinct elements (symbolic-float equivalence of two IEEE mul/div circuits did not finish in 600 s; the operators are macro-generated straight-line code without data-dependent control flow)","timeout":600,"text":"Coor2D operators element-wise"}
+//@h {"id":"C19.K.arith.coor2d","props":["C19"],"tier":"quick","kind":"bounded","bound":"2 x 2 probe vectors with pairwise distinct elements (symbolic-float equivalence of two IEEE mul/div circuits did not finish in 600 s; the operators are macro-generated straight-line code without data-dependent control flow)","timeout":1800,"text":"Coor2D operators element-wise"}
 arith!(c19_arith_coor2d, Coor2D, 2, f64, [0, 1]);
-//@h {"id":"C19.K.arith.coor32","props":["C19"],"tier":"quick","kind":"bounded","bound":"2 x 2 probe vectors with pairwise distinct elements (symbolic-float equivalence of two IEEE mul/div circuits did not finish in 600 s; the operators are macro-generated straight-line code without data-dependent control flow)","timeout":600,"text":"Coor32 operators element-wise (f32 operation)"}
+//@h {"id":"C19.K.arith.coor32","props":["C19"],"tier":"quick","kind":"bounded","bound":"2 x 2 probe vectors with pairwise distinct elements (symbolic-float equivalence of two IEEE mul/div circuits did not finish in 600 s; the operators are macro-generated straight-line code without data-dependent control flow)","timeout":1800,"text":"Coor32 operators element-wise (f32 operation)"}
 arith!(c19_arith_coor32, Coor32, 2, f32, [0, 1]);
 
-//@h {"id":"C19.K.tuple.scale_dot","props":["C19"],"tier":"quick","kind":"bounded","bound":"probe vectors with pairwise distinct elements","timeout":600,"text":"trait-default scale() multiplies each stored element; dot() is the left-to-right sum of element products starting from 0.0; update() copies min(len,dim) elements"}
+//@h {"id":"C19.K.tuple.scale_dot","props":["C19"],"tier":"quick","kind":"bounded","bound":"probe vectors with pairwise distinct elements","timeout":1800,"text":"trait-default scale() multiplies each stored element; dot() is the left-to-right sum of element products starting from 0.0; update() copies min(len,dim) elements"}
 #[kani::proof]
 #[kani::unwind(6)]
 fn c19_tuple_scale_dot() {
@@ -293,16 +293,16 @@ macro_rules! set_harness {
     };
 }
 
-//@h {"id":"C19.K.set.coor4d","props":["C19","C02","C09","C10"],"tier":"quick","kind":"complete","timeout":900,"text":"[Coor4D;3], Vec<Coor4D>, &mut [Coor4D] through &mut dyn CoordinateSet: write-then-read bit-exact in 4 dims; other tuples untouched; xy/xyz/set_xy/set_xyz agree with get_coord/set_coord; set_xy keeps z,t; stomp => all NaN. Symbolic indices i != j over a 3-tuple container (the impls index one element; no loop over the container except stomp)"}
+//@h {"id":"C19.K.set.coor4d","props":["C19","C02","C09","C10"],"tier":"quick","kind":"complete","timeout":1800,"text":"[Coor4D;3], Vec<Coor4D>, &mut [Coor4D] through &mut dyn CoordinateSet: write-then-read bit-exact in 4 dims; other tuples untouched; xy/xyz/set_xy/set_xyz agree with get_coord/set_coord; set_xy keeps z,t; stomp => all NaN. Symbolic indices i != j over a 3-tuple container (the impls index one element; no loop over the container except stomp)"}
 set_harness!(c19_set_coor4d, Coor4D, f64, 4, false, |r: [f64; 4]| Coor4D(r));
-//@h {"id":"C19.K.set.coor3d","props":["C19","C02"],"tier":"quick","kind":"complete","timeout":900,"text":"Coor3D containers: 3 stored dims, epoch reads NaN"}
+//@h {"id":"C19.K.set.coor3d","props":["C19","C02"],"tier":"quick","kind":"complete","timeout":1800,"text":"Coor3D containers: 3 stored dims, epoch reads NaN"}
 set_harness!(c19_set_coor3d, Coor3D, f64, 3, false, |r: [f64; 4]| Coor3D([r[0], r[1], r[2]]));
-//@h {"id":"C19.K.set.coor2d","props":["C19","C02"],"tier":"quick","kind":"complete","timeout":900,"text":"Coor2D containers: 2 stored dims, height reads 0, epoch reads NaN"}
+//@h {"id":"C19.K.set.coor2d","props":["C19","C02"],"tier":"quick","kind":"complete","timeout":1800,"text":"Coor2D containers: 2 stored dims, height reads 0, epoch reads NaN"}
 set_harness!(c19_set_coor2d, Coor2D, f64, 2, false, |r: [f64; 4]| Coor2D([r[0], r[1]]));
-//@h {"id":"C19.K.set.coor32","props":["C19","C02"],"tier":"quick","kind":"complete","timeout":900,"text":"Coor32 containers: 2 stored dims as f32, height reads 0, epoch reads NaN"}
+//@h {"id":"C19.K.set.coor32","props":["C19","C02"],"tier":"quick","kind":"complete","timeout":1800,"text":"Coor32 containers: 2 stored dims as f32, height reads 0, epoch reads NaN"}
 set_harness!(c19_set_coor32, Coor32, f32, 2, true, |r: [f64; 4]| Coor32([r[0] as f32, r[1] as f32]));
 
-//@h {"id":"C19.K.set.adaptors","props":["C19","C02"],"tier":"quick","kind":"complete","timeout":900,"text":"(T,f64) supplies the fixed epoch, (T,f64,f64) the fixed height and epoch; stored dimensions round-trip; frame"}
+//@h {"id":"C19.K.set.adaptors","props":["C19","C02"],"tier":"quick","kind":"complete","timeout":1800,"text":"(T,f64) supplies the fixed epoch, (T,f64,f64) the fixed height and epoch; stored dimensions round-trip; frame"}
 #[kani::proof]
 #[kani::unwind(5)]
 fn c19_set_adaptors() {
@@ -318,7 +318,7 @@ fn c19_set_adaptors() {
     set_contract(&mut b, 3, 2, false, Some(h), Some(e));
 }
 
-//@h {"id":"C02.K.set.views","props":["C02","C19"],"tier":"quick","kind":"complete","timeout":600,"text":"the same tuple presented as 4D, as 3D + fixed epoch, and as 2D + fixed height and epoch reads back as the same Coor4D, bit for bit, in the dimensions each container stores"}
+//@h {"id":"C02.K.set.views","props":["C02","C19"],"tier":"quick","kind":"complete","timeout":1800,"text":"the same tuple presented as 4D, as 3D + fixed epoch, and as 2D + fixed height and epoch reads back as the same Coor4D, bit for bit, in the dimensions each container stores"}
 #[kani::proof]
 fn c02_set_views() {
     let r: [f64; 4] = kani::any();
